@@ -27,13 +27,24 @@ ViewsJ == ndJsonDeserialize(IOEnv.MON_VIEWS)
 Cases == JsonDeserialize(IOEnv.MON_CASES)
 Mode  == IOEnv.MON_MODE          \* delivery of connected blocks
 DMode == IOEnv.MON_DMODE         \* delivery of disconnected blocks
-K == MkK(Cases.cat, Cases.variant, IOEnv.MON_REV = "true", IOEnv.MON_MIR = "true")
+K == MkKS(Cases.cat, Cases.variant, IOEnv.MON_REV = "true", IOEnv.MON_MIR = "true", IOEnv.MON_STALE = "true")
+\* late: the channel was set up in the middle of the streamed first block of every chain (Monitor!InitStLate);
+\* the reference is then a monitor set up before that block, compared depth-wise (Monitor!Cmp)
+Late == IOEnv.MON_LATE = "true"
+NB == Len(Cases.blocks)
 
 IsView(j) == "h" \in DOMAIN j
 V(i) == LET j == ViewsJ[i + 1] IN
-        IF IsView(j) THEN [j EXCEPT !.w = SeqToSet(j.w), !.sn = SeqToSet(j.sn)] ELSE j
+        IF IsView(j) THEN [h |-> j.h, fh |-> j.fh, fo |-> j.fo, dsh |-> j.dsh, mch |-> j.mch, uch |-> j.uch,
+                           ct |-> j.ct, cour |-> j.cour, cos |-> j.cos, cho |-> j.cho, chs |-> j.chs, csl |-> j.csl,
+                           csh |-> j.csh, oosh |-> j.oosh, w |-> SeqToSet(j.w), sn |-> SeqToSet(j.sn),
+                           sb |-> j.sb, pd |-> <<>>]
+        ELSE j
 ChainOf(nd) == [i \in DOMAIN nd.c |-> Cases.blocks[nd.c[i]]]
-ReqOf(ri) == IF ri = 0 THEN ReqD(DMode) ELSE ReqC(Cases.blocks[ri], Mode)
+\* Mode = "mixed": request i connects block i compact, request NB + i connects it streamed
+ReqOf(ri) == IF ri = 0 THEN ReqD(DMode)
+             ELSE IF Mode # "mixed" THEN ReqC(Cases.blocks[ri], Mode)
+             ELSE IF ri <= NB THEN ReqC(Cases.blocks[ri], "compact") ELSE ReqC(Cases.blocks[ri - NB], "streamed")
 RespOf(rc) == CASE rc = 1 -> "ok" [] rc = 2 -> "panic" [] OTHER -> "refused"
 
 VARIABLES node, last
@@ -48,7 +59,9 @@ Next == /\ node >= 0
 Spec == Init /\ [][Next]_<<node, last>>
 View == node
 
-Good(nd) == nd.v = nd.f
+Good(nd) == \/ nd.v = nd.f
+            \/ /\ IsView(ViewsJ[nd.v + 1]) /\ IsView(ViewsJ[nd.f + 1])
+               /\ Cmp(Late, V(nd.v)) = Cmp(Late, V(nd.f))
 C14_NoAbort == node # -3
 C14_View    == node >= 0 => Good(Nodes[node + 1])
 C14 == C14_NoAbort /\ C14_View
@@ -64,15 +77,17 @@ Conforms(nd, e) ==
   LET st == StOf(nd)
       o  == Step(K, st, ReqOf(e[2])) IN
   /\ Enabled(K, st, ReqOf(e[2]))
+  /\ (Late /\ e[2] = 0 => Len(st.chain) > 1)
   /\ o.resp = RespOf(e[3])
-  /\ e[1] >= 0 => o.st = StOf(Nodes[e[1] + 1])
+  /\ e[1] >= 0 => [o.st EXCEPT !.s.pd = <<>>] = StOf(Nodes[e[1] + 1])   \* (the decode state is not observable)
 \* (a refused request - the tracker returned an error, e.g. a compact-filter false positive on removal
 \*  that a front end cannot deliver - is listed under `refused`, not as a divergence)
 Divergent == EdgesWhere(LAMBDA nd, e : IsView(ViewsJ[nd.v + 1]) /\ e[1] # -2 /\ e[3] # 0 /\ ~Conforms(nd, e))
 FreshDivergent == {i \in DOMAIN Nodes :
-                     LET r == Replay(K, ChainOf(Nodes[i]), Mode) IN
+                     LET r == ReplayM(K, ChainOf(Nodes[i]), Nodes[i].cm) IN
                      ~(ValidChain(K, ChainOf(Nodes[i])) /\ r.ok /\ IsView(ViewsJ[Nodes[i].f + 1]) /\ r.s = V(Nodes[i].f))}
-RootOk == Nodes[1].c = <<>> /\ V(Nodes[1].v) = InitView(K)
+RootOk == IF Late THEN Len(Nodes[1].c) = 1 /\ V(Nodes[1].v) = [InitStLate(K, ChainOf(Nodes[1])[1]).s EXCEPT !.pd = <<>>]
+          ELSE Nodes[1].c = <<>> /\ V(Nodes[1].v) = InitView(K)
 
 \* 2. the property, edge by edge: the first step that leaves the set of good states
 FirstBad == EdgesWhere(LAMBDA nd, e : Good(nd) /\ (e[3] = 2 \/ (e[3] = 1 /\ e[1] >= 0 /\ ~Good(Nodes[e[1] + 1]))))
@@ -87,7 +102,7 @@ Describe(p) == LET nd == Nodes[p[1]] e == nd.e[p[2]] IN
   [node |-> nd.id, ri |-> e[2], rc |-> e[3], to |-> e[1],
    diff |-> IF e[1] < 0 THEN <<>>
             ELSE IF IsView(ViewsJ[Nodes[e[1] + 1].f + 1])
-            THEN DiffFields(V(Nodes[e[1] + 1].v), V(Nodes[e[1] + 1].f))
+            THEN DiffFields(Cmp(Late, V(Nodes[e[1] + 1].v)), Cmp(Late, V(Nodes[e[1] + 1].f)))
             ELSE <<"fresh-replay-aborted">>]
 DescribeDiv(p) == LET nd == Nodes[p[1]] e == nd.e[p[2]] o == Step(K, StOf(nd), ReqOf(e[2])) IN
   [node |-> nd.id, ri |-> e[2], rc |-> e[3], to |-> e[1],
